@@ -46,6 +46,170 @@ UNDECIDED = ["rendered geometry and tick values (matplotlib output)"]
 ASSUMPTIONS = ["os.listdir order is arbitrary; sorted() without key is lexicographic on file names"]
 
 
+def _writer_names(save):
+    """File names `_save_frame` produces for a range of frame numbers,
+    computed from the constant pieces and the format spec of its f-string."""
+    for n in own_nodes(save.node):
+        if not isinstance(n, ast.JoinedStr):
+            continue
+        for i, v in enumerate(n.values):
+            if isinstance(v, ast.FormattedValue) and isinstance(v.value, ast.Name) and v.value.id == save.params[2]:
+                spec = ""
+                if v.format_spec is not None:
+                    if not all(isinstance(x, ast.Constant) for x in v.format_spec.values):
+                        return None
+                    spec = "".join(x.value for x in v.format_spec.values)
+                pre = n.values[i - 1].value if i > 0 and isinstance(n.values[i - 1], ast.Constant) else ""
+                suf = n.values[i + 1].value if i + 1 < len(n.values) and isinstance(n.values[i + 1], ast.Constant) else ""
+                pre = str(pre).rsplit("/", 1)[-1]
+                try:
+                    return [pre + format(k, spec) + str(suf) for k in (1, 2, 9, 10, 42, 99, 100, 101, 999, 1000, 12345, 1234567)]
+                except ValueError:
+                    return None
+    return None
+
+
+def _const_str(fi, e):
+    """A constant string, directly or through a module-level name."""
+    if isinstance(e, ast.Constant) and isinstance(e.value, str):
+        return e.value
+    if isinstance(e, ast.Name):
+        for st in fi.module.tree.body:
+            if isinstance(st, ast.Assign) and any(isinstance(t, ast.Name) and t.id == e.id for t in st.targets):
+                return _const_str(fi, st.value)
+            if isinstance(st, ast.AnnAssign) and isinstance(st.target, ast.Name) and st.target.id == e.id and st.value is not None:
+                return _const_str(fi, st.value)
+    if isinstance(e, ast.Call) and (dotted(e.func) or "") in ("re.compile",) and e.args:
+        return _const_str(fi, e.args[0])
+    if isinstance(e, ast.Call) and (dotted(e.func) or "") in ("os.path.join",) and e.args:
+        return _const_str(fi, e.args[-1])
+    return None
+
+
+def _name_filters(ctx, save, load):
+    """R20.a (names): every filter the reader applies to the directory
+    listing accepts every name the writer can produce."""
+    import fnmatch
+    import re as _re
+
+    chk = ctx.chk
+    names = _writer_names(save)
+    if names is None:
+        raise AnalysisError("_save_frame: file-name template not recognised")
+    scope = [load]
+    # helpers of the reader in the same module (sort key, predicates)
+    for n in own_nodes(load.node):
+        if isinstance(n, ast.Name) and n.id in load.module.functions and load.module.functions[n.id] is not load:
+            scope.append(load.module.functions[n.id])
+    n_filters = 0
+    for fi in scope:
+        for n in own_nodes(fi.node):
+            if not isinstance(n, ast.Call):
+                continue
+            d = dotted(n.func) or ""
+            pat = kind = None
+            if d in ("fnmatch.filter", "fnmatch.fnmatch", "fnmatch.fnmatchcase") and len(n.args) == 2:
+                pat, kind = _const_str(fi, n.args[1]), "fnmatch"
+            elif d in ("glob.glob", "glob.iglob") and n.args:
+                pat, kind = _const_str(fi, n.args[0]), "fnmatch"
+                if pat is None and isinstance(n.args[0], ast.JoinedStr) and isinstance(n.args[0].values[-1], ast.Constant):
+                    pat = str(n.args[0].values[-1].value)
+                if pat is not None:
+                    pat = pat.rsplit("/", 1)[-1]
+            elif isinstance(n.func, ast.Attribute) and n.func.attr in ("glob", "rglob") and n.args and d not in ("glob.glob",):
+                pat, kind = _const_str(fi, n.args[0]), "fnmatch"
+            elif d in ("re.match", "re.fullmatch", "re.search") and n.args:
+                pat, kind = _const_str(fi, n.args[0]), d.split(".")[1]
+            elif isinstance(n.func, ast.Attribute) and n.func.attr in ("match", "fullmatch", "search") and isinstance(n.func.value, ast.Name):
+                pat, kind = _const_str(fi, n.func.value), n.func.attr
+                if pat is None:
+                    continue
+            elif isinstance(n.func, ast.Attribute) and n.func.attr in ("startswith", "endswith") and n.args:
+                pat, kind = _const_str(fi, n.args[0]), n.func.attr
+                if pat is None and isinstance(n.args[0], ast.Tuple):
+                    continue
+            else:
+                continue
+            if pat is None:
+                raise AnalysisError(f"{fi.loc(n)}: frame-name filter with a non-constant pattern")
+            n_filters += 1
+            rejected = []
+            for nm in names:
+                if kind == "fnmatch":
+                    ok = fnmatch.fnmatchcase(nm, pat)
+                elif kind in ("match", "fullmatch", "search"):
+                    try:
+                        ok = getattr(_re, kind)(pat, nm) is not None
+                    except _re.error as exc:
+                        raise AnalysisError(f"{fi.loc(n)}: bad pattern {pat!r}: {exc}")
+                elif kind == "startswith":
+                    ok = nm.startswith(pat)
+                else:
+                    ok = nm.endswith(pat)
+                if not ok:
+                    rejected.append(nm)
+            if rejected:
+                chk.violation(
+                    "R20.a", fi, n,
+                    f"the reader keeps only names matching {pat!r} ({kind}), but _save_frame also writes "
+                    f"{', '.join(rejected[:3])}: those frames are silently dropped from the animation",
+                    loc=fi.loc(n),
+                )
+            else:
+                chk.ok("R20.a", fi.qualname, fi.loc(n), f"name filter {pat!r} accepts every name the writer produces ({len(names)} widths probed)")
+    if n_filters == 0:
+        chk.ok("R20.a", load.qualname, load.loc(), "the reader applies no name filter to the frame directory")
+
+
+def _legend_labels(ctx):
+    """R20.b (labels): the label of a legend entry is looked up with the job
+    id whose colour the entry carries, never with a position in some
+    enumeration (the jobs present in a partial schedule are not 0..k-1)."""
+    chk, repo = ctx.chk, ctx.repo
+    try:
+        gl = repo.find_function("_get_job_label")
+    except AnalysisError:
+        return
+    n_calls = 0
+    for fi in repo.all_functions():
+        if fi.module is not gl.module or isinstance(fi.node, ast.Lambda):
+            continue
+        for n in own_nodes(fi.node):
+            if not (isinstance(n, ast.Call) and isinstance(n.func, ast.Name) and n.func.id == gl.name):
+                continue
+            arg = n.args[1] if len(n.args) > 1 else next((k.value for k in n.keywords if k.arg == gl.params[1]), None)
+            if arg is None:
+                continue
+            n_calls += 1
+            txt = ctx.norm.xtext(fi, arg)
+            if "job_id" in txt:
+                chk.ok("R20.b", fi.qualname, fi.loc(n), f"label looked up with `{txt}`")
+                continue
+            verdict = None
+            if isinstance(arg, ast.Name):
+                for loop in own_nodes(fi.node):
+                    if not isinstance(loop, (ast.For, ast.comprehension)):
+                        continue
+                    it, tg = loop.iter, loop.target
+                    is_enum = isinstance(it, ast.Call) and isinstance(it.func, ast.Name) and it.func.id == "enumerate"
+                    is_range = isinstance(it, ast.Call) and isinstance(it.func, ast.Name) and it.func.id == "range"
+                    if is_enum and isinstance(tg, ast.Tuple) and isinstance(tg.elts[0], ast.Name) and tg.elts[0].id == arg.id:
+                        verdict = f"the position in `{ast.unparse(it)[:50]}`"
+                    elif is_range and isinstance(tg, ast.Name) and tg.id == arg.id:
+                        verdict = f"a counter over `{ast.unparse(it)[:50]}`"
+            if verdict:
+                chk.violation(
+                    "R20.b", fi, n,
+                    f"the legend label is looked up with `{arg.id}`, {verdict}, not with the job id of the entry: when "
+                    "the jobs shown are not exactly 0..k-1 (a partial schedule), entries are labelled with another "
+                    "job's name while keeping their own colour",
+                    loc=fi.loc(n),
+                )
+            else:
+                chk.ok("R20.b", fi.qualname, fi.loc(n), f"label looked up with `{txt}` (not a positional index)")
+    chk.analysed["legend_label_lookups"] = n_calls
+
+
 def run(ctx):
     chk, repo = ctx.chk, ctx.repo
     for rid, txt in (
@@ -112,6 +276,9 @@ def run(ctx):
                 chk.ok("R20.a", load.qualname, load.loc(s), "frames sorted by their numeric index")
             else:
                 chk.violation("R20.a", load, s, f"frames are sorted by `{kt}`, which is not their numeric index", loc=load.loc(s))
+
+    _name_filters(ctx, save, load)
+    _legend_labels(ctx)
 
     # ---------------------------------------------------------------- R20.b
     pms = repo.find_function("_plot_machine_schedules")
